@@ -65,7 +65,12 @@ impl Iterator for StepToI64Iterator {
     }
 
     fn size_hint(&self) -> (usize, Option<usize>) {
-        let hint = (self.steps_to_target as usize).saturating_add(1);
+        // steps_to_target is negative once the iterator has been exhausted
+        let hint = if self.steps_to_target >= 0 {
+            (self.steps_to_target as usize).saturating_add(1)
+        } else {
+            0
+        };
         (hint, Some(hint))
     }
 }
